@@ -17,3 +17,92 @@ def main(tier, replay=None):
     if replay:
         return inst_check.replay("C04", replay, 16)
     return inst_check.run("C04", tier, 16, GENS, 450, 7000, ASSUMPTIONS)
+
+
+# ---------------------------------------------------------------------------
+# KeyedList / KeyedSet-typed attributes are outside the instance model; their
+# containers are proved in C13/C14.  Here the composition is explored on the
+# implementation only: an element helper that raises must leave the holder's
+# keyed containers (list view AND key index) exactly as they were.
+def keyed_attributes(chk, cases, bad, extra):
+    from typing import Optional
+
+    from spec_classes import Attr, spec_class
+    from spec_classes.types import KeyedList, KeyedSet
+
+    @spec_class(key="k")
+    class Item:
+        k: str
+        v: int = 0
+
+    @spec_class
+    class Holder:
+        items: KeyedList[Item, str] = Attr(default_factory=KeyedList)
+        tags: KeyedSet[Item, str] = Attr(default_factory=KeyedSet)
+        n: Optional[int] = None
+
+    def snap(h):
+        out = []
+        for name in ("items", "tags"):
+            c = h.__dict__.get(name)
+            if c is None:
+                out.append(None)
+                continue
+            lst = [(id(x), x.k, x.v) for x in getattr(c, "_list", [])]
+            out.append((id(c), lst, sorted((k, id(v), v.k, v.v) for k, v in c._dict.items())))
+        return out
+
+    def boom(_):
+        raise RuntimeError("callback raises")
+    rng = chk.rng
+    keys = ["a", "b", "c", "d"]
+    n = 400 if chk.tier == "quick" else 6000
+    tried = failed_ops = 0
+    for _ in range(n):
+        ks = rng.sample(keys, rng.choice([1, 2, 3]))
+        h = Holder(items=[Item(k, v=i) for i, k in enumerate(ks)], tags=[Item(k, v=i) for i, k in enumerate(ks)])
+        inplace = rng.random() < 0.7
+        idx = rng.choice([0, 1, -1, 2, 5])
+        dup = Item(rng.choice(ks), v=9)
+        new = Item(rng.choice(keys), v=7)
+        op = rng.choice([
+            ("with_item(dup, _index)", lambda: h.with_item(dup, _index=idx, _inplace=inplace)),
+            ("with_item(new, _index)", lambda: h.with_item(new, _index=idx, _inplace=inplace)),
+            ("with_item(new, _index, _insert)", lambda: h.with_item(new, _index=idx, _insert=True, _inplace=inplace)),
+            ("with_item(key)", lambda: h.with_item(rng.choice(keys), _inplace=inplace)),
+            ("with_item(ill-typed)", lambda: h.with_item(3, _inplace=inplace)),
+            ("update_item(idx, dup)", lambda: h.update_item(idx, dup, _by_index=True, _inplace=inplace)),
+            ("update_item(key, v=bad)", lambda: h.update_item(rng.choice(keys), v="x", _inplace=inplace)),
+            ("update_item(key, k=dup)", lambda: h.update_item(ks[0], k=rng.choice(ks), _inplace=inplace)),
+            ("transform_item(key, raising)", lambda: h.transform_item(rng.choice(keys), boom, _inplace=inplace)),
+            ("transform_item(key, v=raising)", lambda: h.transform_item(rng.choice(ks), v=boom, _inplace=inplace)),
+            ("without_item(key)", lambda: h.without_item(rng.choice(keys), _inplace=inplace)),
+            ("with_tag(dup)", lambda: h.with_tag(dup, _inplace=inplace)),
+            ("with_tag(ill-typed)", lambda: h.with_tag(3, _inplace=inplace)),
+            ("update_tag(key, v=bad)", lambda: h.update_tag(rng.choice(keys), v="x", _inplace=inplace)),
+            ("transform_tag(key, raising)", lambda: h.transform_tag(rng.choice(keys), boom, _inplace=inplace)),
+            ("without_tag(key)", lambda: h.without_tag(rng.choice(keys), _inplace=inplace)),
+        ])
+        before = snap(h)
+        tried += 1
+        try:
+            op[1]()
+        except BaseException as e:
+            if isinstance(e, (KeyboardInterrupt, SystemExit)):
+                raise
+            failed_ops += 1
+            after = snap(h)
+            if after != before:
+                chk.violation(
+                    f"element helper {op[0]} (_inplace={inplace}) raised {type(e).__name__} and left the holder's keyed container changed",
+                    {"holder_items": ks, "op": op[0], "inplace": inplace, "index": idx, "before": before, "after": after},
+                    sig={"kind": "keyed-attribute", "op": op[0]})
+                break
+    extra["keyed_attributes"] = {"operations": tried, "raised": failed_ops,
+                                 "rule": "implementation only: KeyedList/KeyedSet attributes of keyed spec items, element helpers with duplicate keys, ill-typed items, missing targets, raising transforms; oracle: list view and key index unchanged after an exception"}
+
+
+def main(tier, replay=None):  # noqa: F811
+    if replay:
+        return inst_check.replay("C04", replay, 16)
+    return inst_check.run("C04", tier, 16, GENS, 450, 7000, ASSUMPTIONS, post=keyed_attributes)
